@@ -421,7 +421,9 @@ async fn c17_main(seed: u64, n_sc: usize) {
         let mut all_ended = true;
         loop {
             let got = outs.lock().unwrap().clone();
-            let failed = proxy.failed_comp.lock().unwrap().clone();
+            // a 5xx answer is retried by the server's HTTP client (exponential back-off, first retry after
+            // about a second): that computation completes like the others and is waited for
+            let failed = if fail_status < 500 { proxy.failed_comp.lock().unwrap().clone() } else { None };
             let done = ids.iter().filter(|(id, _)| Some(id.to_string()) == failed || got.iter().any(|(p, _, _)| p.contains(&id.to_string()) && p.contains("/p1/"))).count();
             if done == m {
                 break;
